@@ -93,6 +93,9 @@ func sortedIDs(set map[wamp.ID]bool) string {
 // Check compares, at a quiescent moment, the announced state with the meta API's.
 func (m *metaMirror) Check(c *Ctx, w *World) {
 	c.DisarmDrops()
+	// the order of the announcements of one object is C18's statement and looked at by C18's
+	// check; the other checks that run a mirror compare the end state only
+	order := c.Spec.Prop == "C18" || c.Spec.Prop == "LIN"
 	if !m.ok || m.obs.RecvClosed || m.obs.CliClosed || LossyTo(c, w, m.obs) {
 		c.Probe("meta_mirror_skipped")
 		return
@@ -147,13 +150,13 @@ func (m *metaMirror) Check(c *Ctx, w *World) {
 		case "wamp.registration.on_register", "wamp.subscription.on_subscribe", "wamp.registration.on_unregister", "wamp.subscription.on_unsubscribe":
 			id := objID()
 			k := topic[5:8] + fmt.Sprint(id)
-			if !created[k] || deleted[k] {
+			if order && (!created[k] || deleted[k]) {
 				c.Violf("meta events out of order: %s for %d which is not (or no longer) announced as created", topic, id)
 			}
 		case "wamp.registration.on_delete", "wamp.subscription.on_delete":
 			id := objID()
 			k := topic[5:8] + fmt.Sprint(id)
-			if !created[k] || deleted[k] {
+			if order && (!created[k] || deleted[k]) {
 				c.Violf("meta events out of order: %s for %d which is not (or no longer) announced as created", topic, id)
 			}
 			deleted[k] = true
